@@ -414,6 +414,13 @@ fn run_worker(id: &str, tier: Tier, lo: u64, hi: u64, timeout: Duration, trace: 
                 }
                 machinery_error("worker exited 0 without a result line");
             }
+            // a worker that stopped with a machinery error: propagate, never a verdict
+            let err_text = String::from_utf8_lossy(&err);
+            if st.code() == Some(2) {
+                if let Some(line) = err_text.lines().rev().find(|l| l.starts_with("MACHINERY-ERROR")) {
+                    machinery_error(line.trim_start_matches("MACHINERY-ERROR: "));
+                }
+            }
             let how = {
                 #[cfg(unix)]
                 {
